@@ -92,13 +92,15 @@ def generate(run_seed, prop, tier="quick"):
                     size, n_leaves = rng.randint(28, 45), rng.randint(11, 18)
                 item = gen_mol.build_item(rng, size=size, n_leaves=n_leaves,
                                           mid_levels=rng.choice([0, 1, 1, 2, 2, 2, 3, 3]), weights=rng.random() < 0.3,
-                                          hyper=("S", "P", "N") if rng.random() < 0.4 else (), explicit_h=rng.random() < 0.25)
+                                          hyper=("S", "P", "N") if rng.random() < 0.4 else (), explicit_h=rng.random() < 0.25,
+                                          components=rng.choice([2, 2, 3]) if rng.random() < 0.12 else 1)
             else:
                 big = rng.random() < 0.1
                 item = gen_mol.build_item(rng, size=rng.randint(28, 45) if big else (rng.randint(3, 12) if small else rng.randint(8, 30)),
                                           n_leaves=rng.randint(11, 18) if big else None,
                                           weights=rng.random() < 0.4,
-                                          hyper=("S", "P", "N") if rng.random() < 0.4 else (), explicit_h=rng.random() < 0.25)
+                                          hyper=("S", "P", "N") if rng.random() < 0.4 else (), explicit_h=rng.random() < 0.25,
+                                          components=rng.choice([2, 2, 3]) if rng.random() < 0.1 else 1)
         elif roll < 0.86:
             item = gen_mol.build_repeat_item(rng)
         else:
@@ -636,8 +638,10 @@ def item_reference(item):
             if not ok:
                 out["violations"].append({"oracle": "C06.composition",
                                           "detail": "multi-level result is not isomorphic to the flattened two-level result: " + why})
-            expected = graphcmp.expected_skeleton(item["mol"])
-            ok, why = graphcmp.isomorphic(a, expected) if item.get("constructed", True) else (True, "not compared")
+            if item.get("constructed", True) and "mol" in item:
+                ok, why = graphcmp.isomorphic(a, graphcmp.expected_skeleton(item["mol"]))
+            else:
+                ok, why = True, "not compared"
             if not ok:
                 out["violations"].append({"oracle": "C06.composition",
                                           "detail": "multi-level result is not isomorphic to the constructed molecule: " + why})
@@ -645,6 +649,14 @@ def item_reference(item):
                 out["violations"].append({"oracle": "C09.valence", "detail": "hydrogen problem %r" % (problem,)})
     except Exception as exc:  # noqa
         out["error"] = _outcome(exc)
+        if item.get("composition") and item.get("flat"):
+            # the layered string cannot be resolved: is its flattened two-level form resolvable?
+            try:
+                MoleculeResolver.from_string(item["flat"], last_all_atom=laa, legacy=item.get("legacy", True)).resolve_all()
+                out["violations"].append({"oracle": "C06.composition",
+                                          "detail": "the multi-level string raises %s while its flattened two-level form resolves" % out["error"][:120]})
+            except Exception:  # noqa - both fail alike: outside the workload
+                pass
     return out
 
 
@@ -716,6 +728,15 @@ def execute(scenario):
     refs = sc.get("refs")
     if refs is None:
         refs = [fork_call(item_reference, (item,), timeout=120) for item in sc["items"]]
+    if any(ref["error"] for ref in refs):
+        found = [dict(v, event=None, where="item %d pristine reference" % i) for i, ref in enumerate(refs) for v in ref["violations"]]
+        if found:
+            result["violations"] = found
+            result["digest"] = sha(jdump(found))
+            result["sample"] = {"strings": [item["multi"] for item in sc["items"]]}
+            sc["finalised"] = True
+            result["scenario"] = sc
+            return result
     if any(ref["error"] for ref in refs) and not sc.get("finalised"):
         # not resolvable in a pristine process: outside the workload (outcome, not a verdict)
         result["status"] = "rejected"
@@ -835,7 +856,7 @@ def execute(scenario):
             stats["items_label_insensitive_convention"] = stats.get("items_label_insensitive_convention", 0) + 1
         if item.get("composition"):
             stats["composition_items"] = stats.get("composition_items", 0) + 1
-            stats["composition_atoms"] = stats.get("composition_atoms", 0) + len(item["mol"]["atoms"])
+            stats["composition_atoms"] = stats.get("composition_atoms", 0) + len(item.get("mol", {}).get("atoms", []))
     ctor_driver = {}
     for client in sc["clients"]:
         ctor = None
